@@ -1,6 +1,7 @@
 import Driver.Sexp
 import Pcore.Model.LoaderSeq
 import Pcore.Model.LoaderTS
+import Pcore.Model.LoaderDep
 /-! Driver op for C12: `hist (tree NODE*) (steps STEP*)` — syntax and output format in harness/c12/c12.go. -/
 namespace C12
 open Sx Pcore.LoaderSeq
@@ -29,11 +30,13 @@ def valStr : V → String
   | .al nm n => s!"(al {hexOfString nm} {n})"
   | .core nm => s!"(core {hexOfString nm})"
 
-/-- parents of the tree nodes; `(p P)` with -1 ≤ P < i, `(f P)` with 0 ≤ P < i; `(st)` (the static loader) as node 0 only -/
+/-- parents of the tree nodes; `(p P)` with -1 ≤ P < i, `(f P)` with 0 ≤ P < i; `(st)` (the static loader) as node 0 only;
+    `(dep (xMOD L)*)` a dependency loader (no parent) -/
 def treeOf (nodes : List Sexp) : Option (List (Option Nat)) :=
   let rec go (i : Nat) : List Sexp → Option (List (Option Nat))
     | [] => some []
     | .list [.atom "st"] :: rest => if i = 0 then (go 1 rest).map (none :: ·) else none
+    | .list (.atom "dep" :: _) :: rest => (go (i + 1) rest).map (none :: ·)
     | .list [.atom kind, p] :: rest => do
       let pi ← p.int?
       if kind ≠ "p" ∧ kind ≠ "f" ∧ kind ≠ "ts" then none
@@ -75,6 +78,29 @@ def tsShapeOK (nodes : List Sexp) (ps : List (Option Nat)) (st : Bool) : Bool :=
      | some _, none => false
      | some _, some q => !(st && q == 0)
      | none, _ => true)
+
+/-- the module loaders of every `(dep (xMOD L)*)` node -/
+def depTable (nodes : List Sexp) : Option (List (Option Mods)) :=
+  nodes.mapM fun (nd : Sexp) => match nd with
+    | .list (.atom "dep" :: ms) =>
+      (ms.mapM fun (m : Sexp) => match m with
+        | .list [x, l] => do
+          let nm ← x.str?
+          let l ← l.nat?
+          pure (nm, l)
+        | _ => none).map some
+    | _ => some none
+
+/-- a module loader wraps a `(p …)` or `(f …)` node declared before (its chain holds no dependency loader: `depShapeOK`);
+    a line has dependency loaders or type-set loaders, not both -/
+def depNodesOK (nodes : List Sexp) (ps : List (Option Nat)) (dps : List (Option Mods)) : Bool :=
+  depShapeOK ps dps &&
+  !((tsTable nodes).any Option.isSome && dps.any Option.isSome) &&
+  dps.all fun d => match d with
+    | none => true
+    | some mods => mods.all fun m => match nodes.getD m.2 (.atom "") with
+      | .list [.atom "p", _] | .list [.atom "f", _] => true
+      | _ => false
 
 /-- a name and its forms relative to the type set `My` (My::My::Foo, My::Foo, Foo) -/
 def relForms : Nat → Name → List Name
@@ -158,7 +184,10 @@ def exec : List Sexp → String
       | none => "bad-op"
       | some ops =>
         let st := hasStatic nodes
-        if !(ops.all (addressOK st)) || !tsShapeOK nodes ps st then "bad-op"
+        match depTable nodes with
+        | none => "bad-op"
+        | some dps =>
+        if !(ops.all (addressOK st)) || !tsShapeOK nodes ps st || !depNodesOK nodes ps dps then "bad-op"
         else
           let s0 := if st then (Sys.init ps).setEnts 0 (staticEnts ops) else Sys.init ps
           -- every discovery predicate is restricted to the names of the line (with a type-set loader: also to their forms
@@ -170,7 +199,7 @@ def exec : List Sexp → String
           let ops := ops.map fun o => match o with
             | .discover l p => Op.discover l (fun k => univ.contains k && p k)
             | o => o
-          let (s, as) := runT (tsTable nodes) s0 ops
+          let (s, as) := if dps.any Option.isSome then runD dps s0 ops else runT (tsTable nodes) s0 ops
           " ; ".intercalate (as.map ansStr) ++ " |" ++ dump s
   | _ => "bad-op"
 
